@@ -38,8 +38,21 @@ Proof. repeat split; vm_compute; congruence. Qed.
 Theorem C13_source_is_what_is_modelled : fixint_ok = true.
 Proof. reflexivity. Qed.
 
+(* positional form of "in the chosen byte order": offset i of an LE<T> field holds bits 8i..8i+7 of
+   the two's-complement pattern, offset i of a BE<T> field holds bits 8(size_of-1-i).. *)
+Theorem C13_byte_at : forall (be : bool) (k : ikind) (z : Z) (i : nat), (i < nbytes k)%nat ->
+  nth_error (enc (fix_value be k z)) i =
+  Some ((bit_pattern k z / 256 ^ N.of_nat (if be then nbytes k - 1 - i else i)) mod 256).
+Proof. exact fixint_byte_at. Qed.
+
+Theorem C13_be_is_reversed_le : forall (k : ikind) (z : Z),
+  enc (fix_value true k z) = rev (enc (fix_value false k z)).
+Proof. exact fixint_be_is_rev_le. Qed.
+
 Print Assumptions C13_ops.
 Print Assumptions C13_bytes.
 Print Assumptions C13_length.
 Print Assumptions C13_roundtrip.
 Print Assumptions C13_source_is_what_is_modelled.
+Print Assumptions C13_byte_at.
+Print Assumptions C13_be_is_reversed_le.
